@@ -92,3 +92,18 @@ package run
 //@   loop 2: invariant[recreated-so-far] forall j int :: 0 <= j && j <= rangeindex#2 ==> orc.downstreamSinks[j] == nil || sinkowner[ref(orc.downstreamSinks[j])] == ref(orc.downstream)
 //@   loop 2: invariant[rest-untouched] forall j int :: rangeindex#2 < j && j < 262144 ==> orc.downstreamSinks[j] === atentry(orc.downstreamSinks[j])
 //@   ensures[successful-reload-counts-one-success] lastreloaderr == nil ==> mval[ref(reloadSuccessCounter)] == old(mval[ref(reloadSuccessCounter)]) + 1
+
+// Taking the read lock: a reload may have completed since the caller last looked, so the guarded state (the live
+// orchestrator and the table) is arbitrary at that point, except that the lock invariant holds; it must hold again at
+// the release. A sink registered under the read lock therefore has to be created from the orchestrator read under it.
+//@ fieldspec ReloadableOrchestrator.downstreamMutex.RLock(m *xsync.RBMutex) *xsync.RToken
+//@   modifies run.ReloadableOrchestrator.downstream, run.ReloadableOrchestrator.downstreamSinks, run.ReloadableOrchestrator.downstreamAddrs
+//@   ensures lockinv(lockorc) && lockorc.downstream != nil
+//@ fieldspec ReloadableOrchestrator.downstreamMutex.RUnlock(m *xsync.RBMutex, t *xsync.RToken)
+//@   requires[every-registered-sink-belongs-to-the-live-orchestrator] lockinv(lockorc)
+//@ func (orc *ReloadableOrchestrator) NewSink(clientAddress string, clientNumber base.ClientNumber) base.BufferReceiverSink
+//@   property C17
+//@   requires orc != nil && orc.downstream != nil && orc.downstreamMutex != nil && orc.logger != nil && 0 <= clientNumber && clientNumber < 262144
+//@   define   lockorc == orc
+//@   modifies everything
+//@   ensures result != nil
